@@ -7,6 +7,7 @@ fn main() {
     let mut r = match a.check.as_str() {
         "c01" => rt.block_on(osv::e2e::c01::run(&a)),
         "c02" => rt.block_on(osv::e2e::c02::run(&a)),
+        "c08" => rt.block_on(osv::e2e::c08::run(&a)),
         "c16" => rt.block_on(osv::e2e::c16::run(&a)),
         "c15" => rt.block_on(osv::e2e::c15::run(&a)),
         other => {
